@@ -1091,6 +1091,25 @@ def _instances(res):
 
 def extra_checks(ctx):
     """how often the productivity theorem was instantiated on real data (evidence; 0 on a full run = alarm)"""
+    return _extra_main(ctx) + [_repair_in_force()]
+
+
+def _repair_in_force():
+    """the model mode is read off the code under test (_convert_flag); a regression of fix 398db71 would make the model
+    FOLLOW the regressed code, so the mode itself is a verdict: rules() must hand out equivalence forms"""
+    import os
+
+    flag = _convert_flag()
+    forced = os.environ.get("VERIF_C02_CONVERT") is not None
+    return ("repair 398db71 in force: SpecificationRuleExtractor.rules() converts one-non-empty-child unions to their "
+            "equivalence form (model mode convert = %d%s)" % (flag, ", forced by VERIF_C02_CONVERT" if forced else ""),
+            flag == 1 or forced,
+            "ok" if flag == 1 or forced else "failing input: any search whose specification uses a one-way union with an empty "
+            "sibling between two classes the equivalence database joined (findings/oneway_equivalence_with_empty_sibling.py): "
+            "rules() hands out the unconverted rule; the fixed finding returned")
+
+
+def _extra_main(ctx):
     n_inst = n_cases = n_path = n_nonzero = n_word = n_word_path = 0
     n_ok = n_nosok = n_tbl_raw = n_tbl_path_raw = 0
     for res, _why, _nt in ctx.impl_res:
